@@ -487,7 +487,7 @@ func TestC13ChannelSink(t *testing.T) {
 		drainMs := rapid.SampledFrom([]int{-1, -1, 0, 0, 5, 60}).Draw(t, "drainAfterMs")
 		timeoutMs := rapid.SampledFrom([]int{1, 5, 20, 40, 10000}).Draw(t, "timeoutMs")
 		cancelMs := rapid.SampledFrom([]int{-2, -2, -1, 1, 10, 40}).Draw(t, "cancelAfterMs") // -2 never, -1 before
-		deadlineMs := rapid.SampledFrom([]int{0, 0, 0, 10, 4500}).Draw(t, "ctxDeadlineMs") // 0 = no deadline on the context
+		deadlineMs := rapid.SampledFrom([]int{0, 0, 0, 10, 4500}).Draw(t, "ctxDeadlineMs")   // 0 = no deadline on the context
 		// "detached": a hand-rolled context that keeps the parent's Deadline and values but is never done
 		// (the pre-Go-1.21 idiom for letting event delivery outlive the request)
 		detach := rapid.IntRange(0, 3).Draw(t, "detachedCtx") == 0
